@@ -148,7 +148,8 @@ def judge_diff(ck, case, line, desc, f, threads, found_sink):
         res.append((t, ndiff, maxd, scale))
         if not ok:
             what = ("differs beyond summation rounding" if f in CRITICAL else "is not bitwise equal")
-            ck.violation("%s: result with %d threads %s from the 1-thread result (%s)" % (FNAMES[f], t, what, desc),
+            if f in found_sink and len(ck.violations) >= 6: continue          # one witness per function is enough once several are reported
+            ck.violation("%s: result %s from the 1-thread result (%s)" % (FNAMES[f], what, desc),
                          "%s on %s: %d of %d entries differ between OMP threads=%d and threads=%d, first at flat index %d, max |diff| %.3g (max |entry| %.3g)"
                          % (FNAMES[f], desc, ndiff, n, threads[0], t, first, maxd, scale),
                          dict(kind="differential", cases=[case], impl=[line], threads=threads, function=FNAMES[f]))
@@ -158,7 +159,7 @@ def judge_diff(ck, case, line, desc, f, threads, found_sink):
 def main(replay=None):
     ck = core.Check(PROP, "proof")
     quick = ck.tier != "thorough"
-    bdir, hb = ck.prepare("Props/Properties_C05.v", "h_c05.cpp", extra_link=["-ldl"])
+    bdir, hb = ck.prepare("Props/Properties_C05.v", "h_c05.cpp", extra_link=["-ldl", "-rdynamic"])
     gen = {}
     gp = os.path.join(core.COQ, "Gen", "genparloops.json")
     if os.path.exists(gp): gen = json.load(open(gp))
@@ -173,6 +174,21 @@ def main(replay=None):
                              dict(kind="defines", missing=missing), found_input=False)
         except OSError: pass
     broken = bool(ck.broken_theorems or ck.translator_problems)
+    broken_lemma = None
+    if ck.broken_theorems:
+        # name the lemma whose proof failed (the failed disjointness goal), from the make log
+        try:
+            import re
+            log = open(os.path.join(ck.workdir, "coq_make.log")).read()
+            m = re.search(r'File "\./(Geom/ParLoops\w*\.v|Gen/GenParLoops\.v|Props/Properties_C05\.v)", line (\d+)[^\n]*\n(Error:?[^\n]*(?:\n[^\n]+){0,6})', log)
+            if m:
+                src = open(os.path.join(core.COQ, m.group(1))).read().split("\n")[:int(m.group(2))]
+                names = [re.match(r"\s*(?:Lemma|Theorem|Definition|Example)\s+([\w']+)", l) for l in src]
+                names = [x.group(1) for x in names if x]
+                broken_lemma = dict(file=m.group(1), line=int(m.group(2)), lemma=names[-1] if names else None, error=m.group(3)[:600])
+                ck.notes.append("first failing proof: %s in %s line %s" % (broken_lemma["lemma"], m.group(1), m.group(2)))
+                ck.log("first failing proof: %s (%s:%s)" % (broken_lemma["lemma"], m.group(1), m.group(2)))
+        except OSError: pass
     if hb is None:
         return ck.finish()
     wd = ck.workdir
@@ -181,7 +197,9 @@ def main(replay=None):
     # ------------------------------------------------------------ replay of a stored case
     if replay:
         rp = json.load(open(replay))
-        mods, kx = build_models(ck.rng, wd, rp.get("tier", "quick") != "thorough")
+        import random, hashlib
+        rrng = random.Random(int(rp.get("seed", ck.seed)) * 1000003 + int(hashlib.sha1(PROP.encode()).hexdigest()[:6], 16))
+        mods, kx = build_models(rrng, wd, rp.get("tier", "quick") != "thorough")
         cases = rp.get("cases", [])
         rc, io, err = core.run_harness(hb, cases, wd, env=ENV, timeout=1200)
         for c, o in zip(cases, io):
@@ -309,11 +327,12 @@ def main(replay=None):
 
     # ------------------------------------------------------------ search when a proof / the translator / a footprint broke
     hammered = 0
-    if broken:
+    if True:
+        # always a short stress run (16 threads, repeated); long when a proof / the translator / a footprint broke
         kbig = [k for k, d, m, fs in mods if "42-vertex" in d]
         kbig = kbig[0] if kbig else 0
-        reps = 200 if quick else 1000
-        hc = [("c05 4 %d %d 16 %d |" % (kbig, f, reps if f != 1 else max(20, reps // 5)), f) for f in (2, 7, 1, 3, 4)]
+        reps = (200 if quick else 1000) if broken else (25 if quick else 200)
+        hc = [("c05 4 %d %d 16 %d |" % (kbig if f != 9 else 0, f, reps if f != 1 else max(20, reps // 5)), f) for f in (2, 7, 1, 3, 4, 9) if f not in found]
         t0 = time.time()
         rc, io, err = core.run_harness(hb, [c[0] for c in hc], wd, env=ENV, timeout=1500)
         for (c, f), line in zip(hc, io):
@@ -327,6 +346,11 @@ def main(replay=None):
                              % (FNAMES[f], druns, first, maxd, scale), dict(kind="hammer", cases=[c], impl=[line]))
                 found.append(f)
         ck.log("hammer: %d runs, %.1fs" % (hammered, time.time() - t0))
+    if broken_lemma:
+        for n, v in enumerate(ck.violations):
+            if v[0] == "proof":
+                rp = dict(v[2]); rp["first_failing_lemma"] = broken_lemma
+                ck.violations[n] = (v[0], v[1] + " -- first failing proof: %s (%s line %d)" % (broken_lemma["lemma"], broken_lemma["file"], broken_lemma["line"]), rp, v[3])
     ck.drop_proof_violation_if(bool(found))
 
     regs = gen.get("regions", [])
